@@ -11,6 +11,7 @@ import time
 import numpy as np
 
 from harness.gen import c16_extra as X
+from harness.gen import c16_extra6 as X6      # round 6
 from harness.gen import cachekey as K
 from harness.gen import datasets as G
 from harness import util
@@ -18,6 +19,7 @@ from harness import util
 ID = 'C16'
 MODULE = 'EmsModel.Props.C16'
 DRIVER = 'C16'
+EXTRA_MODULES = ['EmsModel.Props.C16Equiv']      # round 6: spellings of names, attribute values that compare equal
 REQUIRED = [
     'Ems.C16.hash_int_range', 'Ems.C16.hash_int_decodable', 'Ems.C16.hash_int_injective',
     'Ems.C16.framing_int', 'Ems.C16.framing_string', 'Ems.C16.framing_attributes',
@@ -34,6 +36,9 @@ REQUIRED = [
     'Ems.C16.ugrid_edge_coordinates_are_geometry', 'Ems.C16.edit_value_changes_stream_any_storage',
     'Ems.C16.hash_fields_generated', 'Ems.C16.hash_loop_generated', 'Ems.C16.trailer_generated',
     'Ems.C16.hash_helpers_generated', 'Ems.C16.hashVar_eq_fields', 'Ems.C16.trailer_eq_fields',
+    # round 6 (Props/C16Equiv.lean)
+    'Ems.C16.hash_string_injective', 'Ems.C16.spelling_witnesses', 'Ems.C16.scalar_bytes_injective',
+    'Ems.C16.equal_numbers_differ', 'Ems.C16.signed_zero_differ', 'Ems.C16.attribute_scalar_changes_stream',
 ]
 RULE = ('base datasets of all five convention classes from harness/gen/datasets.py (in memory and after a netCDF '
         'round trip, geometry variables enriched with string / int / float / numpy scalar / numpy array attributes; '
@@ -61,6 +66,15 @@ RULE = ('base datasets of all five convention classes from harness/gen/datasets.
         'element per quarter, both sides of two random powers of two (of every power of two from 2^10 up in the largest '
         'variable) - and one shape / name / attribute edit per '
         'variable and the convention edits must change it. '
+        'Pairs of datasets that a coarser notion of equality would identify (harness/gen/c16_extra6.py), on one base per '
+        'convention class with scalar-only attribute dictionaries and with the enriched ones: one geometry variable / the '
+        'convention class renamed to two spellings of one name, one attribute text / attribute name spelled two ways '
+        '(NFC, NFD, NFKC, NFKD, order of combining marks, upper / lower / casefold, an invisible code point, surrounding '
+        'white space), one attribute holding two values that compare equal in Python and differ in type or representation '
+        '(int / float / bool / numpy integer and float scalars of every width / -0.0 / str and numpy.str_ / tuples; never '
+        'two numpy values with the same bytes: the known type-erasure finding); both keys are computed one after the other '
+        'in one process, in random order, and must differ; some pairs are recomputed in the fresh interpreters in the other '
+        'order; the scalar model of marshal is compared with CPython\'s marshal on every representation of every number. '
         'A case is non-trivial when it is an edit, a probe or an out-of-range / non-ASCII helper input; distinct = '
         'distinct (convention, netCDF?, edit kind, role of the edited variable, edit parameters).')
 TRUSTED = [
@@ -906,6 +920,182 @@ def run_big_base(ctx, rng, bcase: dict, child_cases: list, child_expect: list) -
                             f'{kind} on {name or conv} left the key unchanged ({b.key[:16]}…)')
 
 
+# ==========================================================================
+# >>> round 6 (harness/gen/c16_extra6.py): geometry that a coarser notion of equality would identify
+#
+# Pairs of datasets (A, B) that differ in ONE name or ONE attribute of one geometry variable, where the two names /
+# texts are different spellings that a text normalisation identifies (NFC / NFD / NFKC / NFKD, case, invisible code
+# points, surrounding white space), or the two attribute values compare equal in Python and differ in type or
+# representation (360 / 360.0, 1 / True / numpy.int64(1), 0.0 / -0.0, 'm' / numpy.str_('m'), tuples of such).
+# Both keys are computed one after the other IN THIS PROCESS (the earlier dataset is the history of the later one; the
+# order is random) and must differ; some pairs are recomputed in the fresh interpreters in the OTHER order and must
+# get the same two keys there.  The bases have attribute dictionaries of scalars only (what coordinate variables of
+# real files carry) as well as the enriched ones with array attributes.
+
+def equivalence_pairs(rng6, ref: 'Eval', bcase: dict, plain: dict, n_rename: int, n_value: int) -> list:
+    """[(kind, variable or None, relation, case A, case B, value A, value B)]"""
+    state = ref.state
+    conv = state['conv']
+    expected = [n for n in state['expected'] if n in ref.ds.variables]
+    out = []
+    # ---- names: one geometry variable renamed to two spellings of one name
+    must = ['nfc', 'nfd']
+    for k in range(n_rename):
+        name = rng6.choice(expected)
+        got = X6.spelling_pairs(rng6, 1, spaces=conv != 'ugrid', must=tuple(must[k:k + 1]), prefix=name + '_')
+        for rel, a, b in got:
+            base = bcase if k % 2 else plain
+            out.append(('rename', name, rel, dict(base, edits=base['edits'] + [{'op': 'g_rename', 'var': name, 'to': a}]),
+                        dict(base, edits=base['edits'] + [{'op': 'g_rename', 'var': name, 'to': b}]), a, b))
+    # ---- the name of the convention class
+    for rel, a, b in X6.spelling_pairs(rng6, 1, spaces=False, must=(), prefix='Local'):
+        out.append(('convention-name', None, rel, dict(plain, edits=plain['edits'] + [{'op': 'g_conv', 'to': 'subclass:named=' + a}]),
+                    dict(plain, edits=plain['edits'] + [{'op': 'g_conv', 'to': 'subclass:named=' + b}]), a, b))
+    # ---- attribute texts and attribute names
+    name = rng6.choice(expected)
+    for rel, a, b in X6.spelling_pairs(rng6, 1, spaces=True, must=(rng6.choice(['nfc', 'nfd']),)):
+        out.append(('attr-text', name, rel,
+                    dict(plain, edits=plain['edits'] + [{'op': 'g_attr_add', 'var': name, 'key': 'comment', 'value': a}]),
+                    dict(plain, edits=plain['edits'] + [{'op': 'g_attr_add', 'var': name, 'key': 'comment', 'value': b}]), a, b))
+    for rel, a, b in X6.spelling_pairs(rng6, 1, spaces=True, must=(), prefix='note_'):
+        out.append(('attr-name', name, rel,
+                    dict(plain, edits=plain['edits'] + [{'op': 'g_attr_add', 'var': name, 'key': a, 'value': 'x'}]),
+                    dict(plain, edits=plain['edits'] + [{'op': 'g_attr_add', 'var': name, 'key': b, 'value': 'x'}]), a, b))
+    # ---- attribute values that compare equal; the other attributes of the variable are scalars
+    for k, (rel, sa, sb) in enumerate(X6.equal_value_pairs(rng6, n_value)):
+        name = rng6.choice(expected)
+        base = bcase if (k % 4 == 3) else plain          # (one in four on the enriched base: array attributes too)
+        present = set(ref.ds.variables[name].attrs) | ({k2 for k2, _ in K.NEUTRAL_ATTRS} if base is bcase else set())
+        key = rng6.choice([k2 for k2 in X6.NEUTRAL_KEYS if k2 not in present])
+        scalars = [{'op': 'g_attr_add', 'var': name, 'key': k2, 'value': v}
+                   for k2, v in rng6.sample(X6.SCALAR_ATTRS, rng6.randint(0, 3)) if k2 not in present]
+        at = rng6.randint(0, len(scalars))
+        ea = scalars[:at] + [{'op': 'g_attr_add', 'var': name, 'key': key, 'value': sa}] + scalars[at:]
+        eb = scalars[:at] + [{'op': 'g_attr_add', 'var': name, 'key': key, 'value': sb}] + scalars[at:]
+        out.append(('attr-value', name, rel, dict(base, edits=base['edits'] + ea), dict(base, edits=base['edits'] + eb), sa, sb))
+    return out
+
+
+def scalar_line(v, real: bytes):
+    """the `mscalar` line of the driver for a scalar attribute value (None when the value is outside that model:
+    strings, tuples, an int beyond int32), given what CPython's marshal really wrote for it"""
+    import struct
+    ref = (real[0] >> 7) & 1
+    if v is None:
+        kind, payload = 'none', '-'
+    elif type(v) is bool:
+        kind, payload = 'bool', str(int(v))
+    elif type(v) is int:
+        if not -2 ** 31 <= v < 2 ** 31:
+            return None
+        kind, payload = 'int', str(v)
+    elif type(v) is float:
+        kind, payload = 'float', struct.pack('<d', v).hex()
+    elif isinstance(v, np.generic) and not isinstance(v, (np.str_, np.bytes_)):
+        kind, payload = 'buffer', v.tobytes().hex()
+    else:
+        return None
+    return f'mscalar {ref} {kind} {payload}', hb(real)
+
+
+def run_equivalence_pairs(ctx, bases: list, items: list, child_cases: list, child_expect: list) -> None:
+    import random
+    rng6 = random.Random(f'C16:{ctx.seed}:{int(ctx.searching)}:c16-extra6')
+    # the scalar model of marshal (Core/CacheKeyScalars.lean, theorem scalar_bytes_injective) against CPython's marshal,
+    # on every representation of every number of the generator, held once and held twice
+    for x in X6.NUMBERS + [None, 2 ** 31 - 1, -2 ** 31]:
+        for spec in ([None] if x is None else X6.representations(x)):
+            for shared in (False, True):
+                v = X6.decode(spec)
+                # (a temporary has one reference: no FLAG_REF; a value held in a variable has more)
+                got = scalar_line(v, marshal.dumps(v, 4) if shared else marshal.dumps(X6.decode(spec), 4))
+                if got is None:
+                    ctx.count('marshal-scalar:outside-model')
+                    continue
+                items.append((got[0], got[1], {'direct': 'mscalar', 'repr': repr(v), 'op': got[0]}))
+                ctx.count('marshal-scalar')
+                ctx.nontrivial(('mscalar', got[0]))
+    seen_conv = set()
+    chosen = []
+    for bcase in bases:             # one base per convention class (thorough: three)
+        conv = bcase['recipe']['conv']
+        if bcase.get('enc_dtypes') or bcase.get('edge_coords'):
+            continue
+        if sum(1 for c in chosen if c[0] == conv) >= (1 if ctx.tier == 'quick' else 3):
+            continue
+        chosen.append((conv, bcase))
+    for conv, bcase in chosen:
+        plain = dict(bcase, enrich=False)
+        try:
+            ref = Eval(plain)
+        except Exception:  # noqa
+            ctx.count('n/a:equiv:base')
+            continue
+        if not ref.ok:
+            continue                # (the base loop reports a base that raises)
+        seen_conv.add(ref.state['conv'])
+        n_rename, n_value = (6, 8) if ctx.tier == 'quick' else (10, 14)
+        pairs = equivalence_pairs(rng6, ref, bcase, plain, n_rename, n_value)
+        sent_child = set()
+        for kind, name, rel, case_a, case_b, va, vb in pairs:
+            if rng6.random() < 0.5:         # which of the two is the earlier one in this process
+                case_a, case_b, va, vb = case_b, case_a, vb, va
+            try:
+                a = Eval(case_a)
+                b = Eval(case_b)
+            except Exception:  # noqa  -- an edit that cannot be applied to this dataset
+                ctx.count(f'n/a:equiv:{kind}')
+                continue
+            desc = {'base': case_a, 'edited': case_b, 'expect': 'differ', 'kind': f'equiv:{kind}:{rel}',
+                    'variable': name, 'first': va, 'second': vb,
+                    'history': ['key of `base`', 'key of `edited`, in the same process']}
+            ctx.count(f'equiv:{kind}' + ('' if kind == 'attr-value' else f':{rel}'))
+            ctx.evaluated(2)
+            if not (a.ok and b.ok):
+                # no longer a dataset of the convention under this name (e.g. ShocSimple coordinates, a renamed
+                # dimension coordinate): the conventions' own validation, not covered here
+                ctx.count(f'equiv-err:{a.state["conv"]}:{kind}:{int(a.ok)}{int(b.ok)}')
+                continue
+            ctx.nontrivial(('equiv', a.state['conv'], kind, rel, json.dumps([va, vb], sort_keys=True)))
+            ga, gb = geometry_content(a.ds, a.state), geometry_content(b.ds, b.state)
+            if ga == gb:
+                raise AssertionError(f'harness: the two members of an equivalence pair ({kind}, {rel}) have the same geometry content')
+            for x, c in ((a, case_a), (b, case_b)):
+                if x.key != x.key_rec or len(x.key) != 64:
+                    ctx.oracle_fail('default-hash-not-blake2b-of-stream', {'case': c},
+                                    f'make_cache_key(ds) = {x.key}, blake2b-32 of the recorded stream = {x.key_rec}')
+                if not x.state.get('uncertain') and not two_dimension_guess_wrong(x):
+                    items.append((x.stream_line(), x.stream_out(), {'case': c, 'op': 'stream'}))
+            if not (a.state.get('uncertain') or b.state.get('uncertain') or two_dimension_guess_wrong(a)
+                    or two_dimension_guess_wrong(b)):
+                items.append((f'diff {a.head()} {b.head()}', first_diff(a.stream, b.stream),
+                              {'base': case_a, 'edited': case_b, 'op': 'diff'}))
+            if a.key == b.key:
+                erased = False
+                if kind == 'attr-value':
+                    erased = X6.type_erased_pair(X6.decode(va), X6.decode(vb))
+                if kind == 'attr-value':
+                    what = f'one attribute of {name} = {X6._describe(va)} / {X6._describe(vb)}'
+                else:
+                    what = {'rename': f'{name} renamed to', 'convention-name': 'convention class named',
+                            'attr-text': f'attribute comment of {name} =', 'attr-name': f'attribute of {name} named'}[kind] \
+                        + f' {ascii(va)} ({len(va)} code points) / {ascii(vb)} ({len(vb)} code points)'
+                ctx.oracle_fail(SIG_PUN if erased else 'cache-key-geometry-edit-keeps-key', desc,
+                                f'{what} ({rel}): two different geometries, both keys computed one after the other in this '
+                                f'process are {a.key[:16]}… (streams: {first_diff(a.stream, b.stream)})')
+                continue
+            # the same two keys in a fresh interpreter that meets the two datasets in the OTHER order
+            if kind not in sent_child and (kind in ('rename', 'attr-value') or rng6.random() < 0.3):
+                sent_child.add(kind)
+                child_cases.append(case_b)
+                child_expect.append((b.key, dict(desc, history=['key of `edited`', 'key of `base`', 'in a fresh interpreter'])))
+                child_cases.append(case_a)
+                child_expect.append((a.key, dict(desc, history=['key of `edited`', 'key of `base`', 'in a fresh interpreter'])))
+    ctx.notes.append(f'equivalence pairs (round 6) on conventions {sorted(seen_conv)}')
+# <<< round 6
+# ==========================================================================
+
+
 def run(ctx) -> None:
     rng = ctx.rng
     items: list = []
@@ -1177,6 +1367,11 @@ def run(ctx) -> None:
         items.append((e.stream_line(), e.stream_out(), {'case': case, 'op': 'stream', 'malformed': True}))
         items.append((e.inv_line(), e.inv_out(), {'case': case, 'op': 'inv', 'malformed': True}))
 
+    # ---- round 6: pairs of geometry that a coarser notion of equality would identify ---------------
+    t_eq = time.time()
+    ctx.guarded(lambda: run_equivalence_pairs(ctx, bases, items, child_cases, child_expect), {'block': 'equivalence pairs'})
+    ctx.notes.append(f'equivalence pairs: {round(time.time() - t_eq, 1)} s')
+
     # ---- datasets of realistic size: direct oracle only --------------------------------------------
     t_big = time.time()
     for bcase in big_bases(ctx, rng):
@@ -1300,6 +1495,11 @@ def run_one(ctx, inp: dict) -> dict:
                        f"key B = {res.get('key_b')}; attribute bytes differ for {res.get('flags')}"
                        + (f"; encoding dtype / values dtype (A, B) = {res.get('detail')}" if res.get('detail') else ''))
         out['verdict'] = 'VIOLATES' if res.get('same_geometry') and res.get('key_a') != res.get('key_b') else 'holds'
+        return out
+    if inp.get('direct') == 'mscalar':        # round 6: the scalar model of marshal, replayed by its op line
+        out['impl'] = inp.get('repr')
+        if ctx.driver and inp.get('op'):
+            out['model'] = ctx.model([inp['op']])[0]
         return out
     if 'direct' in inp:
         from emsarray.operations import cache
